@@ -280,7 +280,7 @@ def make_worker(tier):
     return work
 
 
-def graph_cases(tier):
+def graph_cases(tier, with_refs=False):
     """Import graphs over the files {main, a, b, c}: every file declares one struct and imports an ordered list
     (repeats allowed) of the files after it, so the graph is acyclic.  At most one file also REFERS to the struct
     of another file.  Model: a file sees its own declarations and everything its imports see (transitively) - not
@@ -292,9 +292,9 @@ def graph_cases(tier):
             out += list(itertools.permutations(items, n))
         return out
 
-    def build(names, lists_of):
+    def build(names, lists_of, ref_from=None):
         per_file = [lists_of(i, nm, names[i + 1 :]) for i, nm in enumerate(names)]
-        refs = [None] + [(f, t) for f in names for t in names if f != t]
+        refs = [None] + ([(f, t) for f in (ref_from or names) for t in names if f != t and not (ref_from and t == "main")] if with_refs else [])
         res = []
         for combo in itertools.product(*per_file):
             g = dict(zip(names, combo))
@@ -305,14 +305,18 @@ def graph_cases(tier):
     four = ["main", "a", "b", "c"]
     if tier == "quick":
         # ordered subsets, plus a module written twice
-        return build(four, lambda i, nm, later: ordered_subsets(later, 3 if nm == "main" else 2) + [(x, x) for x in later])
+        out = build(four, lambda i, nm, later: ordered_subsets(later, 3 if nm == "main" else 2) + [(x, x) for x in later])
+        if with_refs:
+            # five files: main imports three of them in any order, the others at most two / one later ones
+            out += build(["main", "a", "b", "c", "d"], lambda i, nm, later: list(itertools.permutations(later, 3)) if nm == "main" else ordered_subsets(later, 2 if nm == "a" else 1), ref_from=("a", "b", "c"))
+        return out
     # thorough: every ordered list with repeats over four files, and ordered subsets over five
     full = build(four, lambda i, nm, later: [()] + [t for n in range(1, (3 if nm == "main" else 2) + 1) for t in itertools.product(later, repeat=n)] + ([(x, x, x) for x in later] if nm != "main" else []))
     five = build(["main", "a", "b", "c", "d"], lambda i, nm, later: ordered_subsets(later, 3 if nm == "main" else 2))
     return full + five
 
 
-def run_graphs(S, tier):
+def run_graphs(S, tier, prop="C20", with_refs=False):
     import shutil
     import tempfile
     from fcp.parser import get_fcp
@@ -347,32 +351,32 @@ def run_graphs(S, tier):
                 try:
                     res = get_fcp(os.path.join(td, "main.fcp"), Logger({}))
                 except Exception as e:  # noqa
-                    S2.violation("C20.graph", "C20.graph/exception:%s" % type(e).__name__, inp, expected="Ok" if visible_ok else "Err", actual=str(e)[:200])
+                    S2.violation(prop + ".graph", prop + ".graph/exception:%s" % type(e).__name__, inp, expected="Ok" if visible_ok else "Err", actual=str(e)[:200])
                     continue
                 if not visible_ok:
                     if res.is_ok():
                         S2.add("outcomes", "graph-accepted-invisible-reference")
-                        S2.violation("C20.graph", "C20.graph/reference-to-a-declaration-the-file-never-imported-is-accepted", inp, expected="Err: %s.fcp imports nothing that declares S_%s" % ref, actual=sorted(st.name for st in res.unwrap().structs))
+                        S2.violation(prop + ".graph", prop + ".graph/reference-to-a-declaration-the-file-never-imported-is-accepted", inp, expected="Err: %s.fcp imports nothing that declares S_%s" % ref, actual=sorted(st.name for st in res.unwrap().structs))
                     else:
                         S2.add("outcomes", "graph-err-expected")
                     continue
                 if res.is_err():
                     S2.add("outcomes", "graph-err")
                     first = res.err().msg[0][0]
-                    S2.violation("C20.graph", "C20.graph/acyclic-import-graph-rejected/%s" % ("Cyclic-import" if "Cyclic" in first else "cannot-be-found" if "cannot be found" in first else "other"), inp, expected="Ok: structs of " + ",".join(sorted(r_main)), actual=[m[0] for m in res.err().msg])
+                    S2.violation(prop + ".graph", prop + ".graph/acyclic-import-graph-rejected/%s" % ("Cyclic-import" if "Cyclic" in first else "cannot-be-found" if "cannot be found" in first else "other"), inp, expected="Ok: structs of " + ",".join(sorted(r_main)), actual=[m[0] for m in res.err().msg])
                     continue
                 got = sorted(st.name for st in res.unwrap().structs)
                 want = sorted("S_" + x for x in r_main)
                 if got != want:
                     S2.add("outcomes", "graph-differs")
-                    S2.violation("C20.graph", "C20.graph/declarations-differ/%s" % ("duplicated" if len(got) > len(set(got)) else "missing-or-extra"), inp, expected=want, actual=got)
+                    S2.violation(prop + ".graph", prop + ".graph/declarations-differ/%s" % ("duplicated" if len(got) > len(set(got)) else "missing-or-extra"), inp, expected=want, actual=got)
                 else:
                     S2.add("outcomes", "graph-ok:%d" % len(want))
         finally:
             shutil.rmtree(td, ignore_errors=True)
         return S2
 
-    gs = graph_cases(tier)
+    gs = graph_cases(tier, with_refs)
     for s2 in pmap(work, chunks(gs, 400)):
         S.merge(s2)
     return len(gs)
